@@ -25,6 +25,7 @@ import (
 	"io"
 	"net"
 	"net/http"
+	"runtime"
 	"sort"
 	"strconv"
 	"strings"
@@ -156,9 +157,25 @@ type fixedAddr string
 func (a fixedAddr) Network() string { return "tcp" }
 func (a fixedAddr) String() string  { return string(a) }
 
+// calledFromServe reports whether (*Proxy).Serve is on the caller's stack.
+func calledFromServe() bool {
+	pc := make([]uintptr, 24)
+	n := runtime.Callers(3, pc)
+	frames := runtime.CallersFrames(pc[:n])
+	for {
+		f, more := frames.Next()
+		if strings.HasSuffix(f.Function, "(*Proxy).Serve") {
+			return true
+		}
+		if !more {
+			return false
+		}
+	}
+}
+
 func (c *sconn) RemoteAddr() net.Addr {
-	if atomic.AddInt32(&c.raddrN, 1) == 1 {
-		// first evaluation: by Serve, for its debug log, between Accept and `go p.handleLoop(conn)`
+	if atomic.LoadInt32(&c.raddrN) == 0 && calledFromServe() && atomic.AddInt32(&c.raddrN, 1) == 1 {
+		// evaluated by Serve (for its debug log) between Accept and `go p.handleLoop(conn)`
 		c.w.log.add("raddr:%d", c.k)
 		if c.plan != nil && c.plan.point == "gate" {
 			c.plan.arrive()
@@ -170,6 +187,7 @@ func (c *sconn) RemoteAddr() net.Addr {
 
 func (c *sconn) Read(b []byte) (int, error) {
 	if atomic.AddInt32(&c.readCalls, 1) == 1 {
+		atomic.StoreInt32(&c.raddrN, 1) // the handler runs: Serve is past this connection
 		// first read of the handler: it has passed conns.Add(1) and the Closing() check
 		c.w.log.add("rd:%d", c.k)
 	}
@@ -677,11 +695,15 @@ func runScenario(sc *scenario) (trace []string, v verdict, counted map[int]bool)
 		}
 		cl := clients[k]
 		if pt == "gate" {
-			if !waitCh(plans[k].parked, stepDeadline) {
-				v.set("c07:no-progress:gate", "Serve did not evaluate RemoteAddr of connection %d between Accept and spawn", k)
-				return w.log.snapshot(), v, counted
+			if waitCh(plans[k].parked, 500*time.Millisecond) {
+				continue
 			}
-			continue
+			// Serve no longer evaluates RemoteAddr between Accept and the spawn (e.g. the debug log was
+			// removed): the schedule of F07 cannot be forced this way; the connection is an idle one
+			core.Count("gate-ineffective")
+			plans[k].release()
+			pt = "idle"
+			sc.pts[k] = "idle"
 		}
 		var sent int64
 		for i := 0; i < sc.x[k]; i++ {
@@ -784,10 +806,14 @@ func runScenario(sc *scenario) (trace []string, v verdict, counted map[int]bool)
 		v.set("c07:close-hang", "Close() did not return within %v after every parked exchange was released", stepDeadline)
 	}
 	for k := 0; k < len(w.byIdx) && k < n; k++ {
-		if !waitCh(w.byIdx[k].closed, stepDeadline) {
+		d := stepDeadline
+		if v.fail != "" {
+			d = 200 * time.Millisecond
+		}
+		if !waitCh(w.byIdx[k].closed, d) {
 			v.set("c07:conn-not-closed", "connection %d (%s) was never closed by its handler", k, sc.pts[k])
 		}
-		if clients[k] != nil && !waitCh(clients[k].eof, stepDeadline) {
+		if clients[k] != nil && !waitCh(clients[k].eof, d) {
 			v.set("c07:conn-not-closed", "client of connection %d (%s) saw no EOF", k, sc.pts[k])
 		}
 	}
@@ -976,7 +1002,28 @@ type ex struct{}
 func (P) NewExec() core.Exec { return &ex{} }
 func (e *ex) Close()         {}
 
+// hangs counts scenarios that ended in a deadline (something did not happen). After a few of them the
+// remaining scenarios of the run are skipped: each costs several deadlines, the failing inputs are
+// already recorded, and the check must stay bounded when the proxy hangs systematically.
+var hangs int32
+
+func isHang(sig string) bool {
+	return sig == "c07:close-hang" || sig == "c07:conn-not-closed" || strings.HasPrefix(sig, "c07:no-progress")
+}
+
 func (e *ex) Do(op string) core.Result {
+	if atomic.LoadInt32(&hangs) >= 6 && (strings.HasPrefix(op, "scn ") || strings.HasPrefix(op, "race ")) {
+		core.Count("skipped-after-repeated-hangs")
+		return core.Result{Impl: "skipped", SkipModel: true}
+	}
+	r := e.do(op)
+	if isHang(r.Sig) {
+		atomic.AddInt32(&hangs, 1)
+	}
+	return r
+}
+
+func (e *ex) do(op string) core.Result {
 	switch {
 	case strings.HasPrefix(op, "scn "):
 		sc, ok := parseScn(op)
